@@ -14,6 +14,12 @@ impl<T> Vec<T> {
     #[verifier::external_body]
     pub fn clear(&mut self) ensures final(self)@ == Seq::<T>::empty() { unimplemented!() }
 }
+impl Vec<Entity> {
+    // Vec::extend(iter): appends every item the iterator yields, in order (std) - so that the natural rewrite of the `for_each(push)` statement
+    // is still inside the subset and is checked against the same contract
+    #[verifier::external_body]
+    pub fn extend(&mut self, it: RemovedIter<'_>) ensures final(self)@ == old(self)@ + it.elems().skip(it.pos() as int) { unimplemented!() }
+}
 pub struct In<T>(pub T);
 pub trait ReactComponent: Sized {}
 #[verifier::external_body] #[verifier::accept_recursive_types(C)] pub struct React<C> { _p: core::marker::PhantomData<C> }
@@ -38,7 +44,7 @@ impl<T> RemovedComponents<T> {
 
 //@fn src/react/react_cache.rs - collect_component_removals ret=r
 //@| ensures r@ == removed.unread(),
-//@foreach removed.read()
+//@foreach? removed.read()
 //@before for entity in | let ghost verif_un = removed.unread();
 //@loopvar 1 it
 //@loop 1 | invariant it.seq() == verif_un, buffer@ == verif_un.take(it.index@ as int),
